@@ -157,7 +157,7 @@ def gen_qua_doc(r: random.Random, hi: int = 10) -> dict:
         d = {}
         put_t(d, t())
         if r.random() < 0.85:
-            d["Multiplier"] = r.choice([1.0, 0.5, 2.0, 1.01999998, 4.54000664, 0.325713784, -1.0, 10, 0.1])
+            d["Multiplier"] = r.choice([1.0, 0.5, 2.0, 1.01999998, 4.54000664, 0.325713784, -1.0, 10, 0.1, 0, 0.0])
         svs.append(d)
     shape = r.choice(["mixed", "mixed", "mixed", "hits_only", "holds_only", "empty"])
     n = 0 if shape == "empty" else max(1, size(r, hi))
@@ -642,13 +642,17 @@ def gen_int_grid(r: random.Random, keys: int, hi: int, t0: int = 0):
         pool.add(st + k * beat_ms // d)
     pool = sorted(pool)
     hits, holds = [], []
+    shape = r.choice(["mixed", "mixed", "mixed", "mixed", "holds_only", "hits_only"])
+    p_hold = {"mixed": 0.3, "holds_only": 1.0, "hits_only": 0.0}[shape]
     for c in range(keys):
         if r.random() < 0.3 and c != keys - 1:
             continue
         ps = sorted(r.sample(pool, r.randint(1, max(1, min(len(pool), 4)))))
+        if shape == "holds_only" and len(ps) % 2:
+            ps = ps[:-1] if len(ps) > 1 else ps + [ps[-1] + 1000]
         i = 0
         while i < len(ps):
-            if i + 1 < len(ps) and r.random() < 0.3:
+            if i + 1 < len(ps) and r.random() < p_hold:
                 holds.append((ps[i], c, ps[i + 1]))
                 i += 2
             else:
